@@ -254,9 +254,21 @@ func (v *FnVC) encodeAlloc(i *ssa.Alloc) {
 	v.ptrs[i] = l
 	v.store(st, l, v.S.Zero(el))
 	v.initGhosts(el, func() string { return ref })
+	if _, isS := structOf(el); !isS && l.Kind == LCell && stableLocal(i) {
+		captured := false
+		for _, r := range *i.Referrers() {
+			if _, ok := r.(*ssa.MakeClosure); ok {
+				captured = true
+			}
+		}
+		if captured {
+			v.stableCells = append(v.stableCells, stableCell{key: l.Key, ref: ref})
+		}
+	}
 }
 
-// initGhosts sets the ghost fields of a freshly allocated object to their zero values.
+// initGhosts sets the ghost fields of a freshly allocated object to their zero values, including those of
+// struct-typed fields stored by value inside it (addressed by their interior pointers).
 func (v *FnVC) initGhosts(el types.Type, ref func() string) {
 	prefix := typeKey(el) + "."
 	for k, g := range v.W.ghosts {
@@ -267,6 +279,32 @@ func (v *FnVC) initGhosts(el types.Type, ref func() string) {
 		key := v.regKey("G:"+typeKey(el)+"."+g.Name, fmt.Sprintf("(Array Int %s)", so))
 		zero := v.S.zeroOfSort(so, gt)
 		v.heapSet(v.cur, key, fmt.Sprintf("(store %s %s %s)", v.heapGet(v.cur, key), ref(), zero))
+	}
+	if len(v.W.ghosts) == 0 {
+		return
+	}
+	if st, ok := structOf(el); ok {
+		for i := 0; i < st.NumFields(); i++ {
+			f := st.Field(i)
+			if _, isS := structOf(f.Type()); !isS {
+				continue
+			}
+			has := false
+			fp := typeKey(f.Type()) + "."
+			for k := range v.W.ghosts {
+				if strings.HasPrefix(k, fp) {
+					has = true
+				}
+			}
+			if !has {
+				continue
+			}
+			fld := f
+			v.initGhosts(f.Type(), func() string {
+				l := &Loc{Kind: LField, Key: v.fieldKey(el, fld), Ref: ref(), T: fld.Type(), RootT: fld.Type()}
+				return v.ptrTerm(l)
+			})
+		}
 	}
 }
 
